@@ -39,7 +39,7 @@ type Case struct {
 
 var allLayouts = []geom.Layout{geom.XY, geom.XYZ, geom.XYM, geom.XYZM, geom.Layout(5), geom.Layout(6), geom.Layout(7), geom.Layout(9), geom.NoLayout}
 
-var routes = []string{"setcoords", "mustset", "flat", "flat-noends", "push", "clone", "reserve", "reset", "wkb", "ewkb", "wkt", "geojson"}
+var routes = []string{"setcoords", "mustset", "flat", "flat-noends", "push", "clone", "clonepush", "clonepush", "reserve", "reset", "wkb", "ewkb", "wkt", "geojson"}
 
 func genCase(t *rapid.T) Case {
 	floats := rapid.SampledFrom([]int{gen.AllBits, gen.AllBits, gen.SmallInt, gen.Finite}).Draw(t, "floats")
@@ -408,6 +408,8 @@ func obtain(c Case) (geom.T, string, error) {
 	route := c.Route
 	std := g.Layout >= 1 && g.Layout <= 4 && g.Kind != model.LinearRing
 	switch route {
+	case "clonepush": // kinds without Push (and NoLayout): plain Clone
+		route = "clone"
 	case "wkb", "ewkb":
 		if !std || hasNaNPoint(g) {
 			route = "setcoords"
@@ -580,6 +582,11 @@ func prop(c Case) error {
 		}
 		return nil
 	}
+	if c.Route == "clonepush" && g.Layout != 0 {
+		if done, err := clonePush(c); done {
+			return err
+		}
+	}
 	t, route, err := obtain(c)
 	if err != nil {
 		return fmt.Errorf("route %s: %v", route, err)
@@ -588,6 +595,91 @@ func prop(c Case) error {
 		return fmt.Errorf("route %s returned nil", route)
 	}
 	return lossless("route "+route, t, g, route != "reserve" || true)
+}
+
+// clonePush obtains a geometry by Clone and then grows the original and the clone
+// by different Push calls (a non-empty part on one, an empty one on the other, in a
+// drawn order): both must stay well formed and lossless. It reports done=false for
+// kinds without Push.
+func clonePush(c Case) (bool, error) {
+	g := &c.G
+	l := g.Lay()
+	one := bad(g.Stride())
+	var full, empty *model.G
+	switch g.Kind {
+	case model.MultiPoint:
+		full, empty = &model.G{Kind: model.Point, Layout: g.Layout, C0: one}, &model.G{Kind: model.Point, Layout: g.Layout}
+	case model.Polygon:
+		full, empty = &model.G{Kind: model.LinearRing, Layout: g.Layout, C1: [][]model.F{one, one}}, &model.G{Kind: model.LinearRing, Layout: g.Layout, C1: [][]model.F{}}
+	case model.MultiLineString:
+		full, empty = &model.G{Kind: model.LineString, Layout: g.Layout, C1: [][]model.F{one, one}}, &model.G{Kind: model.LineString, Layout: g.Layout, C1: [][]model.F{}}
+	case model.MultiPolygon:
+		full, empty = &model.G{Kind: model.Polygon, Layout: g.Layout, C2: [][][]model.F{{one, one}, {}}}, &model.G{Kind: model.Polygon, Layout: g.Layout, C2: [][][]model.F{}}
+	default:
+		return false, nil
+	}
+	orig, err := setCoords(newEmpty(g.Kind, l), g)
+	if err != nil {
+		return true, fmt.Errorf("clonepush: %v", err)
+	}
+	var cl geom.T
+	switch tt := orig.(type) {
+	case *geom.Polygon:
+		cl = tt.Clone()
+	case *geom.MultiPoint:
+		cl = tt.Clone()
+	case *geom.MultiLineString:
+		cl = tt.Clone()
+	case *geom.MultiPolygon:
+		cl = tt.Clone()
+	}
+	grow := func(t geom.T, part *model.G) error {
+		p, err := model.Build(part, model.RouteFlat)
+		if err != nil {
+			return err
+		}
+		switch tt := t.(type) {
+		case *geom.Polygon:
+			return tt.Push(p.(*geom.LinearRing))
+		case *geom.MultiPoint:
+			return tt.Push(p.(*geom.Point))
+		case *geom.MultiLineString:
+			return tt.Push(p.(*geom.LineString))
+		case *geom.MultiPolygon:
+			return tt.Push(p.(*geom.Polygon))
+		}
+		return nil
+	}
+	with := func(part *model.G) *model.G {
+		m := g.Clone()
+		switch g.Kind {
+		case model.MultiPoint:
+			m.C1 = append(m.C1, part.C0)
+		case model.Polygon, model.MultiLineString:
+			m.C2 = append(m.C2, part.C1)
+		case model.MultiPolygon:
+			m.C3 = append(m.C3, part.C2)
+		}
+		return m
+	}
+	po, pc := full, empty
+	if g.NumCoords()%2 == 1 {
+		po, pc = empty, full
+	}
+	first, second, pf, ps := orig, cl, po, pc
+	if len(c.G.C1)%2 == 1 {
+		first, second, pf, ps = cl, orig, pc, po
+	}
+	if err := grow(first, pf); err != nil {
+		return true, fmt.Errorf("clonepush: %v", err)
+	}
+	if err := grow(second, ps); err != nil {
+		return true, fmt.Errorf("clonepush: %v", err)
+	}
+	if err := lossless("original after Clone and Push on both", orig, with(po), true); err != nil {
+		return true, err
+	}
+	return true, lossless("clone after Clone and Push on both", cl, with(pc), true)
 }
 
 func classify(c Case) ([]string, bool) {
